@@ -89,6 +89,10 @@ def initial_content(kind: str, st: dict | None) -> bytes:
     if kind == "owncon":
         return (cm("SPDX-FileCopyrightText: 1990 Old Holder") + "\n" + cm("SPDX-FileContributor: Old Contributor") + "\n"
                 + cm("SPDX-License-Identifier: Zlib") + "\n\n" + code).encode()
+    if kind == "ignoredheader":  # a comment with a tag inside an ignore block (documentation of the tags, say): not a header the linter reads
+        return (cm("REUSE-IgnoreStart") + "\n\n" + cm("SPDX-License-Identifier: Zlib") + "\n" + cm("(example)") + "\n\n" + cm("REUSE-IgnoreEnd") + "\n" + code).encode()
+    if kind == "badexprbody":    # a string in the code that looks like a tag with an expression nobody can parse
+        return (code + "note := 'SPDX-License-Identifier: not (valid';\n").encode()
     if kind == "conly":          # a header that names a contributor and nothing else
         return (cm("SPDX-FileContributor: Old Contributor") + "\n\n" + code).encode()
     if kind == "badexpr":
